@@ -15,6 +15,7 @@ Copyright (C) - All Rights Reserved
 type taskCallback struct {
 	taskOptions
 	pool    *poolImpl
+	owner   any // 任务完成之前持有Pool对象, 防止Pool在还有任务未完成时被回收
 	handler Handler
 
 	result any
@@ -22,10 +23,11 @@ type taskCallback struct {
 	wg     sync.WaitGroup
 }
 
-func newTaskCallback(pool *poolImpl, handler Handler, opts taskOptions) *taskCallback {
+func newTaskCallback(pool *poolImpl, owner any, handler Handler, opts taskOptions) *taskCallback {
 	var my = &taskCallback{
 		taskOptions: opts,
 		pool:        pool,
+		owner:       owner,
 		handler:     handler,
 	}
 
@@ -50,6 +52,7 @@ func (my *taskCallback) Err() error {
 
 func (my *taskCallback) run(ctx context.Context) {
 	defer my.wg.Done()
+	defer func() { my.owner = nil }() // 任务结束, 不再需要Pool
 
 	for i := 0; i < my.retry; i++ {
 		my.runTaskOnce(ctx)
